@@ -2515,7 +2515,7 @@ SDIgetcoordvar(NC     *handle, /* IN: file handle */
                 if ((handle->file_type != HDF_FILE) || (*dp)->var_type == IS_CRDVAR ||
                     (*dp)->var_type == UNKNOWN) {
                     /* see if we need to change the number type */
-                    if ((nt != 0) && (nt != (*dp)->type)) {
+                    if ((nt != 0) && (nt != (*dp)->HDFtype)) {
                         if (((*dp)->type = hdf_unmap_type((int)nt)) == FAIL) {
                             HGOTO_ERROR(DFE_INTERNAL, FAIL);
                         }
